@@ -1,7 +1,7 @@
-(* C02 — property theorems only.  Proofs are in C02/Proofs.v and Base/DecFacts.v.
+(* C02 — property theorems only.  Proofs are in C02/Proofs.v, C02/Sqrt.v, C02/Format.v, C02/DivExact.v and Base/DecFacts.v.
    The theorems are about the specification model (Base/DecRound.v); the C kernel is tied to it by the correspondence check only. *)
 From Coq Require Import ZArith NArith Bool List.
-From DV Require Import Base.Dec Base.DecFacts Base.DecRound C02.Model C02.Proofs C02.Sqrt.
+From DV Require Import Base.Dec Base.DecFacts Base.DecRound C02.Model C02.Proofs C02.Sqrt C02.Format C02.DivExact.
 Import ListNotations.
 Open Scope Z_scope.
 
@@ -157,6 +157,131 @@ Example C02_nonvacuous :
   f_cmp (mkdec false 10 (-1)) (mkdec false 100 (-2)) = Eq.
 Proof. exact model_nontrivial. Qed.
 
+(* ------------------------------------------------------------------ every result is a decimal128 datum, or null *)
+(* HEADLINE.  For ALL operands in format (coefficient < 10^34, exponent -6176..6111) every operator and method of the model that produces a
+   number gives either null (None) or a datum in format: + - * / modulo (the Spec and the stepwise ImplModel) negation abs floor ceiling
+   truncation sqrt decimal(n, scale) and integer powers, including the reduce-after-operation step.  (The type dec has no Infinity / NaN.) *)
+Theorem C02_results_in_format : forall a b, in_format a = true -> in_format b = true ->
+  (forall r, f_add a b = Some r -> in_format r = true) /\
+  (forall r, f_sub a b = Some r -> in_format r = true) /\
+  (forall r, f_mul a b = Some r -> in_format r = true) /\
+  (forall r, f_div a b = Some r -> in_format r = true) /\
+  (forall r, f_mod a b = Some r -> in_format r = true) /\
+  (forall r, f_mod_steps a b = Some r -> in_format r = true) /\
+  (forall r, f_neg a = Some r -> in_format r = true) /\
+  (forall r, f_abs a = Some r -> in_format r = true) /\
+  (forall r, f_floor a = Some r -> in_format r = true) /\
+  (forall r, f_ceiling a = Some r -> in_format r = true) /\
+  (forall r, f_trunc a = Some r -> in_format r = true) /\
+  (forall r, f_sqrt a = Some r -> in_format r = true) /\
+  (forall scale r, f_decimal a scale = Some r -> in_format r = true) /\
+  (forall n r, f_pow_nat a n = Some r -> in_format r = true).
+Proof. exact results_in_format. Qed.
+
+(* the operations that end with the rounding step need no hypothesis at all on the operands (any coefficient size, any exponent) *)
+Theorem C02_rounded_results_in_format : forall a b,
+  (forall r, f_add a b = Some r -> in_format r = true) /\
+  (forall r, f_sub a b = Some r -> in_format r = true) /\
+  (forall r, f_mul a b = Some r -> in_format r = true) /\
+  (forall r, f_div a b = Some r -> in_format r = true) /\
+  (forall r, f_mod a b = Some r -> in_format r = true) /\
+  (forall r, f_mod_steps a b = Some r -> in_format r = true) /\
+  (forall r, f_sqrt a = Some r -> in_format r = true) /\
+  (forall n r, f_pow_nat a n = Some r -> in_format r = true).
+Proof. exact rounded_results_in_format. Qed.
+
+(* reduce-after-operation and decimal() keep a datum in format *)
+Theorem C02_reduce_in_format : forall d, in_format d = true -> in_format (dreduce d) = true.
+Proof. exact dreduce_in_format. Qed.
+Theorem C02_decimal_in_format : forall d scale, in_format d = true -> -6111 <= scale < 6176 -> in_format (drescale d scale) = true.
+Proof. exact drescale_in_format. Qed.
+
+(* null is not a way out: the rounding step gives None EXACTLY when the exact value m * 10^e reaches the overflow threshold
+   (10^34 - 1/2) * 10^6111 (written at the base exponent b = min e ETINY, doubled); below it there always is a result *)
+Theorem C02_null_iff_overflow : forall s m e, let b := Z.min e ETINY in
+  round34 s m e = None <-> (2 * 10 ^ 34 - 1) * 10 ^ (ETOP - b) <= 2 * Z.of_N m * 10 ^ (e - b).
+Proof. exact round34_none_iff_overflow. Qed.
+Theorem C02_defined_iff_in_range : forall s m e, let b := Z.min e ETINY in
+  (exists r, round34 s m e = Some r) <-> 2 * Z.of_N m * 10 ^ (e - b) < (2 * 10 ^ 34 - 1) * 10 ^ (ETOP - b).
+Proof. exact round34_defined_iff_in_range. Qed.
+Theorem C02_mul_null_iff_overflow : forall a b, let e := expo a + expo b in let b0 := Z.min e ETINY in
+  dmul a b = None <-> (2 * 10 ^ 34 - 1) * 10 ^ (ETOP - b0) <= 2 * Z.of_N (coef a * coef b) * 10 ^ (e - b0).
+Proof. exact dmul_none_iff_overflow. Qed.
+Theorem C02_add_null_iff_overflow : forall a b, let e := emin2 a b in let b0 := Z.min e ETINY in
+  dadd a b = None <-> (2 * 10 ^ 34 - 1) * 10 ^ (ETOP - b0) <= 2 * Z.abs (scaled a e + scaled b e) * 10 ^ (e - b0).
+Proof. exact dadd_none_iff_overflow. Qed.
+
+Example C02_overflow_nonvacuous :
+  round34 false 9999999999999999999999999999999999 6111 = Some (mkdec false 9999999999999999999999999999999999 6111) /\
+  round34 false 99999999999999999999999999999999994 6110 = Some (mkdec false 9999999999999999999999999999999999 6111) /\
+  round34 false 99999999999999999999999999999999995 6110 = None /\
+  round34 false 1 6144 = Some (mkdec false 1000000000000000000000000000000000 6111) /\
+  round34 false 1 6145 = None /\
+  dmul (mkdec false 1 6144) (mkdec false 10 0) = None /\
+  dadd (mkdec false 9999999999999999999999999999999999 6111) (mkdec false 5 6110) = None /\
+  dadd (mkdec false 9999999999999999999999999999999999 6111) (mkdec false 4 6110) = Some (mkdec false 9999999999999999999999999999999999 6111).
+Proof. exact overflow_examples. Qed.
+
+Example C02_format_nonvacuous :
+  f_floor (mkdec true 5 (-1)) = Some (mkdec true 1 0) /\
+  f_ceiling (mkdec true 5 (-1)) = Some (mkdec false 0 0) /\
+  f_decimal (mkdec false 9999999999999999999999999999999999 0) (-1) = Some (mkdec false 1000000000000000000000000000000000 1) /\
+  f_decimal (mkdec false 1 20) 20 = Some (mkdec false 1 20) /\
+  f_decimal (mkdec false 1 0) 6176 = None /\
+  f_mul (mkdec false 1000000000000000000000000000000000 6111) (mkdec false 1 0) = Some (mkdec false 1000000000000000000000000000000000 6111) /\
+  f_neg (mkdec true 0 (-6176)) = Some (mkdec false 0 (-6176)) /\
+  f_neg (mkdec false 9999999999999999999999999999999999 6111) = Some (mkdec true 9999999999999999999999999999999999 6111) /\
+  f_div (mkdec false 1 (-6176)) (mkdec false 2 0) = Some (mkdec false 0 0) /\
+  f_pow_nat (mkdec false 1 3072) 2 = Some (mkdec false 1000000000000000000000000000000000 6111) /\
+  f_pow_nat (mkdec false 10 3072) 2 = None /\
+  f_pow_nat (mkdec true 3 0) 72 = Some (mkdec false 2252839954493917441184014787477264 1) /\
+  in_format (mkdec false 9999999999999999999999999999999999 6111) = true /\
+  in_format (mkdec true 0 (-6176)) = true /\
+  in_format (mkdec false 10000000000000000000000000000000000 0) = false /\
+  in_format (mkdec false 1 6112) = false.
+Proof. exact format_examples. Qed.
+
+(* ------------------------------------------------------------------ division is correctly rounded *)
+(* HEADLINE for division: for EVERY pair of finite decimals with non-zero coefficients (any coefficient size, any exponent) a result r of
+   ddiv is a decimal128 datum with the sign (sign a xor sign b) whose value is c * 10^q, where c * 10^q is a nearest multiple of 10^q to the
+   exact rational quotient |a| / |b|, half-way cases going to an even c.  Integers only: at every common scale 10^B (B <= expo a,
+   B <= q + expo b), with X = |a| / 10^B and Y = |b| * 10^q / 10^B the inequality |c * 10^q - |a|/|b|| <= 10^q / 2 reads
+   2 * |c * Y - X| <= Y.  c has at most 34 digits (c <= 10^34) and the quantum is the 34-digit one (10^33 <= c) unless q is the smallest
+   exponent -6176 (subnormal results).  This links C02_div_sticky and C02_div_drops_at_least_3 to the actual ddiv. *)
+Theorem C02_div_correctly_rounded : forall a b r, (0 < coef a)%N -> (0 < coef b)%N -> ddiv a b = Some r ->
+  exists (c : N) (q : Z),
+    in_format r = true /\ neg r = xorb (neg a) (neg b) /\ veq r (mkdec (xorb (neg a) (neg b)) c q) /\
+    (c <= 10 ^ 34)%N /\ ETINY <= q /\ (ETINY < q -> (10 ^ 33 <= c)%N) /\
+    forall B, B <= expo a -> B <= q + expo b ->
+      let X := Z.of_N (coef a) * 10 ^ (expo a - B) in
+      let Y := Z.of_N (coef b) * 10 ^ (q + expo b - B) in
+      2 * Z.abs (Z.of_N c * Y - X) <= Y /\ (2 * Z.abs (Z.of_N c * Y - X) = Y -> N.even c = true).
+Proof. exact ddiv_correctly_rounded. Qed.
+
+(* a zero dividend gives an exact zero (exponent clamped into the range); a zero divisor gives null (C02_div_by_zero_null) *)
+Theorem C02_div_zero_dividend : forall a b, coef a = 0%N -> coef b <> 0%N ->
+  ddiv a b = Some (mkdec (xorb (neg a) (neg b)) 0 (clamp_exp (expo a - expo b))).
+Proof. exact ddiv_zero_dividend. Qed.
+
+(* 1/3, 2/3, -2/3, two exact ties (35-digit quotients ending in 5: one goes up to the even neighbour, one down), an exact quotient,
+   overflow -> null, a tie on the subnormal grid going to zero and one going up, gradual underflow of 1E-6143 / 3; the bound for 2/3 is
+   strict, the first tie meets it with an even coefficient *)
+Example C02_div_nonvacuous :
+  ddiv (mkdec false 1 0) (mkdec false 3 0) = Some (mkdec false 3333333333333333333333333333333333 (-34)) /\
+  ddiv (mkdec false 2 0) (mkdec false 3 0) = Some (mkdec false 6666666666666666666666666666666667 (-34)) /\
+  ddiv (mkdec true 2 0) (mkdec false 3 0) = Some (mkdec true 6666666666666666666666666666666667 (-34)) /\
+  ddiv (mkdec false 9999999999999999999999999999999999 0) (mkdec false 2 0) = Some (mkdec false 5000000000000000000000000000000000 0) /\
+  ddiv (mkdec false 9999999999999999999999999999999997 0) (mkdec false 2 0) = Some (mkdec false 4999999999999999999999999999999998 0) /\
+  f_div (mkdec false 1 0) (mkdec false 8 0) = Some (mkdec false 125 (-3)) /\
+  ddiv (mkdec false 1 6111) (mkdec false 1 (-100)) = None /\
+  ddiv (mkdec false 1 (-6176)) (mkdec false 2 0) = Some (mkdec false 0 (-6176)) /\
+  ddiv (mkdec false 3 (-6176)) (mkdec false 2 0) = Some (mkdec false 2 (-6176)) /\
+  ddiv (mkdec false 1 (-6143)) (mkdec false 3 0) = Some (mkdec false 333333333333333333333333333333333 (-6176)) /\
+  div_nearest_even_at (mkdec false 2 0) (mkdec false 3 0) 6666666666666666666666666666666667 (-34) (-34) /\
+  2 * Z.abs (6666666666666666666666666666666667 * 3 - 2 * 10 ^ 34) < 3 /\
+  2 * Z.abs (5000000000000000000000000000000000 * (2 * 10) - 9999999999999999999999999999999999 * 10) = 2 * 10.
+Proof. exact div_examples. Qed.
+
 Print Assumptions C02_round34_nearest_even.
 Print Assumptions C02_round_half_even.
 Print Assumptions C02_round_exact.
@@ -186,3 +311,16 @@ Print Assumptions C02_div_by_zero_null.
 Print Assumptions C02_sqrt_negative_null.
 Print Assumptions C02_mod_steps_refuted.
 Print Assumptions C02_nonvacuous.
+Print Assumptions C02_results_in_format.
+Print Assumptions C02_rounded_results_in_format.
+Print Assumptions C02_reduce_in_format.
+Print Assumptions C02_decimal_in_format.
+Print Assumptions C02_null_iff_overflow.
+Print Assumptions C02_defined_iff_in_range.
+Print Assumptions C02_mul_null_iff_overflow.
+Print Assumptions C02_add_null_iff_overflow.
+Print Assumptions C02_overflow_nonvacuous.
+Print Assumptions C02_format_nonvacuous.
+Print Assumptions C02_div_correctly_rounded.
+Print Assumptions C02_div_zero_dividend.
+Print Assumptions C02_div_nonvacuous.
